@@ -94,6 +94,7 @@ type Config struct {
 	Strategy             int             // 0 random walk, 1 PCT priorities, 2 starve-one
 	MaxIdle              time.Duration   // simulated idle time after which S declares the run stuck
 	MaxSteps             uint64          // hard cap on scheduler steps per run
+	MaxYields            uint64          // hard cap on scheduling points passed per run (default: 100000, or half of MaxSteps if that is more; ordinary runs stay below 10000)
 	Record               bool            // keep the human-readable trace
 	Debug                bool            // print trace lines to stderr as they happen
 }
@@ -109,6 +110,7 @@ type Sim struct {
 	parked  []*G
 	current *G
 	epoch   atomic.Uint64
+	nyield  uint64 // scheduling points passed (only the released goroutine counts)
 	stamp   atomic.Uint64
 	notify  chan struct{}
 	locks   map[any]*lockModel
@@ -226,6 +228,13 @@ func (s *Sim) yield(g *G, site string) {
 		return
 	}
 	g.site = site
+	// a goroutine that passes scheduling points for ever without the run ending is a livelock (a loop in
+	// the code under test that never terminates): stop it long before the decisions it draws fill the memory
+	s.nyield++
+	if s.nyield > s.cfg.MaxYields && !s.free.Load() {
+		s.Fail("step-limit", fmt.Sprintf("run passed %d scheduling points without ending (last: %s in %s)", s.nyield, site, g.Name))
+		panic(abortRun{})
+	}
 	if s.cfg.SwitchDen > 0 && s.src.Choose(s.cfg.SwitchDen, "sw") >= s.cfg.SwitchDen-s.cfg.SwitchNum {
 		s.switches++
 		s.park(g, site)
@@ -1069,6 +1078,9 @@ func Execute(t *testing.T, src Source, configure func(src Source) Config, body f
 			}
 			if cfg.MaxSteps == 0 {
 				cfg.MaxSteps = 200000
+			}
+			if cfg.MaxYields == 0 {
+				cfg.MaxYields = max(100000, cfg.MaxSteps/2)
 			}
 			s = &Sim{cfg: cfg, src: src, gs: map[uint64]*G{}, locks: map[any]*lockModel{},
 				notify: make(chan struct{}, 1), unlockCh: make(chan struct{}), probes: map[string]int{}, faults: map[string]int{},
